@@ -20,7 +20,10 @@ PATTERN_NAMES = [
     ".hushlogin", ".kermrc", ".notar", ".where", "veronica.ctl", "veronicaXctl", "veronica.ctl2", "robots.txt",
     "robots.txt.bak", "arobots.txt", "nohup.out", "nohup.out2", "gophermap", "gophermap2", "x.gophermap",
     "a.abstract", "a.abstracts", "a.keyboards", "a.keywords", "a.ask", "a.askew", "aask", "a.3d", "a.3dx", "a3d",
+    ".names~", ".Links~", ".cache.old",
 ]
+# dot-files the shipped pattern ignores: under the UMN handler they must not be read as link files either
+IGNORED_DOTFILES = [".names~", ".Links~", ".cache.old", ".cachefile", ".forward", ".message", ".hushlogin", ".kermrc", ".notar", ".where"]
 PLAIN_NAMES = ["alpha.txt", "Beta.txt", "gamma", "delta.html", "epsilon.html", "zeta.gif", "a", "A", "b c.txt",
                "café.txt", "10", "9", "z.txt", "Z.txt", "_under", "-dash"]
 DOTFILES = [".hidden", ".x", ".profile"]
@@ -73,6 +76,15 @@ def hide_by_metadata(rng, t: Tree, kinds: typing.Dict[str, str]) -> typing.Set[s
         n = rng.choice(dirs)
         blocks.append("Path=./%s/\nType=X\n" % n)
         hidden.add(n)
+    for n in dirs:
+        # .cap files speak about sub-directories as well as about files
+        if n not in hidden and rng.random() < 0.5:
+            if rng.random() < 0.5:
+                t.file(".cap/" + n, "Type=%s\n" % rng.choice("X-"))
+                hidden.add(n)
+            else:
+                t.file(".cap/" + n, "Name=Capped directory %s\nNumb=%d\n" % (n, rng.randrange(-2, 3)))
+            kinds.setdefault(".cap", "dir")
     for n in cands[3:3 + rng.randrange(0, 3)]:
         # a .cap file that renames without hiding
         t.file(".cap/" + n, "Name=Capped %s\nNumb=%d\n" % (n, rng.randrange(-2, 3)))
@@ -130,6 +142,16 @@ def run_dir(chk: Check, sc: Scratch, idx: int, handler_name: str, handlers: str,
     hidden_meta = hide_by_metadata(rng, sub, kinds) if umn and rng.random() < 0.5 else set()
     depth = rng.choice([b"", b"d", b"d/e"])
     patt0 = driver.make_config("/").get("handlers.dir.DirHandler", "ignorepatt")
+    if umn:
+        # ignored dot-files (editor backups of link files, .message, .forward ...) whose text happens to be
+        # link-file stanzas: they hide nothing and add nothing
+        victims = [x for x in kinds if not x.startswith(".") and not re.search(patt0, "/" + x) and x not in hidden_meta]
+        for k, nm in enumerate(sorted(x for x in kinds if x in IGNORED_DOTFILES and kinds[x] == "file")):
+            text = "Name=From an ignored file %d\nType=0\nPath=/ignored-link/%d\nHost=+\nPort=+\n" % (k, k)
+            if victims:
+                text += "\nPath=./%s\nType=X\n\nPath=./%s\nName=Renamed by an ignored file\n" % (rng.choice(victims), rng.choice(victims))
+            sub.file(nm, text)
+            chk.count("ignored_dotfiles_holding_stanzas")
     if umn and rng.random() < 0.4:
         several_link_files(rng, sub, kinds, lambda n: re.search(patt0, ("/" + depth.decode() + "/" + n).replace("//", "/"))
                            or n in hidden_meta)
